@@ -422,6 +422,8 @@ fn build_enum(
 
     let syn_fields = fields.iter().enumerate().map(|(idx, (name, value))| {
         let name_ident = str_to_ident(name);
+        // `isize` literals are truncated when the bindings are compiled for a 32-bit target
+        let value = *value as i128;
         let field = quote! {
             #name_ident = #value as _
         };
